@@ -10,11 +10,9 @@ for d in sorted(glob.glob(os.path.join(ROOT, "seeded", "*m[0-9]"))):
     meta = json.load(open(mp))
     conf = json.load(open(os.path.join(d, "confirm.json"))) if os.path.exists(os.path.join(d, "confirm.json")) else {}
     checks = {}
-    for f in sorted(glob.glob(os.path.join(d, "check_*.json")), key=os.path.getmtime):
-        checks.update(json.load(open(f)))
-    if os.path.exists(os.path.join(d, "final.json")):
-        fin = json.load(open(os.path.join(d, "final.json")))
-        checks = {k: v for k, v in fin.items() if isinstance(v, dict) and "rc" in v} or checks
+    # the latest run of each check against this seed wins (sweep results and later single re-runs alike)
+    for f in sorted(glob.glob(os.path.join(d, "check_*.json")) + glob.glob(os.path.join(d, "final.json")), key=os.path.getmtime):
+        checks.update({k: v for k, v in json.load(open(f)).items() if isinstance(v, dict) and "rc" in v})
     meta["lead_confirmation"] = {
         "how": "tools/seed_eval.py confirm: scratch copy of /repo + patch: go build, full suite (Test_syncHead and the sleep-based store tests are load-sensitive; a failure of those alone on the busy machine is not counted), demo with patch, demo without patch",
         "suite_passes_with_patch": conf.get("suite_passes_with_patch"),
